@@ -91,6 +91,9 @@ func (r Resources) ContainsBucketPattern() bool {
 
 // Bucket resources should start with bucket name: arn:aws:s3:::MyBucket/*
 func (r Resources) Validate(bucket string) error {
+	if len(r) == 0 {
+		return policyErrInvalidResource
+	}
 	for resource := range r {
 		rest, ok := strings.CutPrefix(resource, bucket)
 		if !ok {
